@@ -22,5 +22,7 @@ for c in $(git log --format=%h --grep='^fix:'); do
     esac
   fi
   git reset -q --hard HEAD
+  # reverts that apply textually but no longer compile against later fixes are kept as rebased by hand
+  case "$n" in revert_traitof_counter) echo "$n kept (rebased by hand)"; continue;; esac
   if git revert -n $c >/dev/null 2>&1; then git diff HEAD > /verif/mutants/$n.diff; echo "$n ok"; else git revert --abort 2>/dev/null; echo "$n CONFLICT (rebase by hand)"; fi
 done
